@@ -35,7 +35,9 @@ func Same(a, b error) bool {
 	}
 	eq := false
 	if p := Guard(func() { eq = a == b }); p != nil {
-		return false
+		// non-comparable dynamic value (e.g. a struct with a slice): the
+		// best notion of "the same value" is deep equality.
+		return reflect.DeepEqual(a, b)
 	}
 	return eq
 }
@@ -221,4 +223,12 @@ func Annotations(e error) Vec {
 		}
 	}
 	return v
+}
+
+// IsG is errors.Is with panics reported instead of propagated.
+func IsG(e, r error) (res bool, panicked bool) {
+	if p := Guard(func() { res = errors.Is(e, r) }); p != nil {
+		return false, true
+	}
+	return res, false
 }
